@@ -38,8 +38,8 @@ theorem dispatchDev_char {cfg : Config Id} {σ : SState} {c : Char}
 
 theorem Tr.withMode {s s' : State} {calls : List Call} {R : Aux → Aux → Prop} (h : Tr s s' calls R) (m : Mode) :
     Tr s { s' with mode := m } calls R := by
-  obtain ⟨hm, hc, he, ids, f⟩ := h
-  refine ⟨hm.withMode m, hc, he, ids, fun x rest hx hs => ?_⟩
+  obtain ⟨hm, hc, he, ids, hfi, f⟩ := h
+  refine ⟨hm.withMode m, hc, he, ids, hfi, fun x rest hx hs => ?_⟩
   obtain ⟨x', l, r⟩ := f x rest hx hs
   exact ⟨x', ⟨l.aux.withMode m, l.supply, l.switch, l.script, l.outs, l.log⟩, r⟩
 
@@ -789,10 +789,11 @@ theorem tokPost_inner {spec specIn : SState → Spec.TreeModes.M (Step Id)} {s s
       specIn (absF s1 x1) = .ok (stepOf res s2 x2) → absF s3 x2 = F (absF s2 x2) →
       spec (absF s x) = .ok (stepOf res s3 x2)) :
     TokPost spec s tok res s3 (c1 ++ (c2 ++ c3)) := by
-  obtain ⟨hm1, hc1, hx1, ids1, f1⟩ := h1
-  obtain ⟨hres, hm2', hc2, ids2, f2⟩ := h2
-  obtain ⟨hm3, hc3, hx3, ids3, f3⟩ := h3 (mInv_unapplyRes hm2')
-  refine ⟨hres, hm3.applyRes res, (hc3.trans hc2).trans hc1, ids1 ++ (ids2 ++ ids3), fun x rest hx hs => ?_⟩
+  obtain ⟨hm1, hc1, hx1, ids1, hfi1, f1⟩ := h1
+  obtain ⟨hres, hm2', hc2, ids2, hfi2, f2⟩ := h2
+  obtain ⟨hm3, hc3, hx3, ids3, hfi3, f3⟩ := h3 (mInv_unapplyRes hm2')
+  refine ⟨hres, hm3.applyRes res, (hc3.trans hc2).trans hc1, ids1 ++ (ids2 ++ ids3),
+    hfi1.append ((hfi2.append (hfi3.of_dom he2.ext)).of_dom hx1), fun x rest hx hs => ?_⟩
   obtain ⟨x1, l1, r1⟩ := f1 x (ids2 ++ (ids3 ++ rest)) hx (by rw [hs]; simp only [List.append_assoc])
   obtain ⟨x2, ops2, e2, hok2, hstop2, hsup2, hout2, houts2, hlog2, hcalls2⟩ := f2 x1 (ids3 ++ rest) l1.aux l1.supply
   have hlive2 : x2.stopped = false := by
